@@ -38,13 +38,23 @@ theorem reflectField_ok (ds : DescSet) (f : FieldD) (s : RField) (h : describes 
     | oneof ref => rfl
     | map i => simp [describesItem] at hi
     | array i => simp [describesItem] at hi
+  have coll : ∀ kind t i, i ≠ .any → describesItem ds kind t i = true → collectionItem i = .ok () := by
+    intro kind t i hne hi
+    cases i with
+    | any => exact absurd rfl hne
+    | map i => simp [describesItem] at hi
+    | array i => simp [describesItem] at hi
+    | _ => rfl
   unfold describes at h
   unfold reflectField
   cases hc : f.card with
   | list =>
     simp only [hc] at h
     cases s with
-    | array i => simp only [hc]; exact item _ _ _ h
+    | array i =>
+      simp only [Bool.and_eq_true, bne_iff_ne, ne_eq] at h
+      simp only [hc]
+      simp [item _ _ _ h.2, coll _ _ _ h.1 h.2, Outcome.bind]
     | _ => cases h
   | map =>
     simp only [hc] at h
@@ -55,8 +65,8 @@ theorem reflectField_ok (ds : DescSet) (f : FieldD) (s : RField) (h : describes 
       | none => simp [hmv] at h
       | some x =>
         obtain ⟨vk, vt, vkey⟩ := x
-        simp only [hmv] at h
-        exact item _ _ _ h
+        simp only [hmv, Bool.and_eq_true, bne_iff_ne, ne_eq] at h
+        simp [item _ _ _ h.2, coll _ _ _ h.1 h.2, Outcome.bind]
     | _ => cases h
   | single =>
     simp only [hc] at h
